@@ -127,13 +127,17 @@ def timeline(hist, base):
     return out
 
 
-def verdicts(hist):
+def verdicts(hist, with_origin=True):
+    """with_origin: also which job's exception a critical scheduler re-raised
+    (when several critical jobs hold an exception the library picks one by set
+    iteration order: only comparable between runs with the same hash salt)"""
     out = {}
     for sid in hist.sched_ids():
         sr = hist.sr(sid)
         out[sid] = (sr.over[2] if sr.over else None,
                     sr.value if sr.over and sr.over[2] == 'ret' else
-                    (type(sr.value).__name__, getattr(sr.value, 'nid', None))
+                    (type(sr.value).__name__,
+                     getattr(sr.value, 'nid', None) if with_origin else None)
                     if sr.over else None,
                     bool(sr.fto), bool(sr.fc), sr.why)
     return out
@@ -543,8 +547,9 @@ def c12p(case, stats):
                 "{} runs (enter, exit, kind) = {} but {} when jobs are added "
                 "in another order".format(nid, tl_a[nid], tl_b[nid])))
             break
-    if verdicts(hist_a) != verdicts(hist_b):
+    if verdicts(hist_a, False) != verdicts(hist_b, False):
         out.append(Violation(
             'C12', 'insertion-order:verdict', 'twin',
-            "{} vs {}".format(verdicts(hist_a), verdicts(hist_b))))
+            "{} vs {}".format(verdicts(hist_a, False),
+                              verdicts(hist_b, False))))
     return out, run_a, run_b
